@@ -587,10 +587,17 @@ fn run(cx: &Cx) {
     cx.exhaustive(true);
     let st = Stats::default();
     let quick = cx.quick();
-    let (nodes, deco, dyn_nodes) = if quick { (4, 1, 3) } else { (5, 2, 4) };
+    // thorough: one more node at the same decoration bound, then the quick node bound with two
+    // decorations (5 nodes with 2 decorations is out of reach: every document costs 13 executions)
+    let (nodes, deco, dyn_nodes) = if quick { (4, 1, 3) } else { (5, 1, 4) };
 
     let q = GenCfg { schema: &ir, fields: FIELDS, conds: CONDS, max_nodes: nodes, max_depth: 3, named_fragments: 2, deco: Some(Class::Dev(0)), typename: false, op: OpKind::Query, root_fragments: true };
     sweep(cx, &st, &ir, "query-static", &q, deco, &[&st_t]);
+    if !quick {
+        // two decorations on one document (alias + directive, directives on two nodes, …)
+        let q2 = GenCfg { max_nodes: 3, ..GenCfg { schema: &ir, fields: FIELDS, conds: CONDS, max_nodes: 3, max_depth: 3, named_fragments: 2, deco: Some(Class::Dev(0)), typename: false, op: OpKind::Query, root_fragments: true } };
+        sweep(cx, &st, &ir, "query-static-2-decorations", &q2, 2, &[&st_t, &dy_t]);
+    }
     let dq = GenCfg { max_nodes: dyn_nodes, ..GenCfg { schema: &ir, fields: FIELDS, conds: CONDS, max_nodes: nodes, max_depth: 3, named_fragments: 2, deco: Some(Class::Dev(0)), typename: false, op: OpKind::Query, root_fragments: true } };
     sweep(cx, &st, &ir, "query-dynamic", &dq, deco, &[&dy_t]);
     let m = GenCfg { schema: &ir, fields: M_FIELDS, conds: &["A"], max_nodes: if quick { 3 } else { 4 }, max_depth: 3, named_fragments: 1, deco: Some(Class::Dev(0)), typename: false, op: OpKind::Mutation, root_fragments: true };
@@ -605,7 +612,8 @@ fn run(cx: &Cx) {
         cx.machinery_error(format!("reference and implementation never agreed on {} (vacuous or systematically wrong)", if ar == 0 { "a rejection" } else { "an acceptance" }));
     }
     cx.rule(&format!(
-        "case = (document, flavour); for each of the 4 measures the schema is built with that one limit at m−1, m, m+1 (m = reference measure; negative limits dropped) and the request executed, plus one run without limits. Documents: (query-static) every valid query ≤ {nodes} selection nodes over S1's subset (fields per type {FIELDS:?}, fragment conditions {CONDS:?}, ≤ 2 named fragments incl. nested spreads, inline fragments typed/untyped), structure exhaustive, ≤ {deco} decoration(s) (alias; 12 @skip/@include forms incl. variables, 1 or 2 directives per node); (query-dynamic) the same with ≤ {dyn_nodes} nodes on the dynamic twin of S1; (mutation), (subscription: single root field, first stream response) ≤ {} nodes on both flavours; (custom-complexity) the K family: root entry ∈ 11 forms (incl. an object-typed fragment spread into an interface-typed selection set) × feed of n ∈ {{argument default, literal 3, literal 0, variable, variable default, given-over-default, nullable variable given, nullable variable omitted}} × sub-selection ∈ 8 forms (alias, spread of a fragment on the object / on the interface, inline fragment, @skip'd field, nested rule field with its own feed), optionally a second root entry ({}). All-default world. Non-trivial = (document, flavour) on which both an expected rejection and an expected acceptance were observed and agreed.",
+        "case = (document, flavour); for each of the 4 measures the schema is built with that one limit at m−1, m, m+1 (m = reference measure; negative limits dropped) and the request executed, plus one run without limits. Documents: (query-static) every valid query ≤ {nodes} selection nodes over S1's subset (fields per type {FIELDS:?}, fragment conditions {CONDS:?}, ≤ 2 named fragments incl. nested spreads, inline fragments typed/untyped), structure exhaustive, ≤ {deco} decoration(s) (alias; 12 @skip/@include forms incl. variables, 1 or 2 directives per node); {}(query-dynamic) the same with ≤ {dyn_nodes} nodes on the dynamic twin of S1; (mutation), (subscription: single root field, first stream response) ≤ {} nodes on both flavours; (custom-complexity) the K family: root entry ∈ 11 forms (incl. an object-typed fragment spread into an interface-typed selection set) × feed of n ∈ {{argument default, literal 3, literal 0, variable, variable default, given-over-default, nullable variable given, nullable variable omitted}} × sub-selection ∈ 8 forms (alias, spread of a fragment on the object / on the interface, inline fragment, @skip'd field, nested rule field with its own feed), optionally a second root entry ({}). All-default world. Non-trivial = (document, flavour) on which both an expected rejection and an expected acceptance were observed and agreed.",
+        if quick { "" } else { "(query-static-2-decorations) ≤ 3 nodes with ≤ 2 decorations on both flavours; " },
         if quick { 3 } else { 4 },
         if quick { "reduced menu of 4" } else { "full menu" }
     ));
